@@ -3,6 +3,7 @@ package main
 // Scenario families for the batch properties C06 C07 C08 C09 C11 (driver in batch.go).
 
 import (
+	"context"
 	"fmt"
 	"strings"
 	"time"
@@ -23,6 +24,29 @@ func okMenu(i, k int) []answer      { return []answer{{val: okVal(i)}} }
 func fbOkOrErr(i int) []answer      { return []answer{{val: 2000 + i}, {err: fbErrTable[i]}} }
 
 var postX = []answer{{action: "x"}}
+
+var ctxWrapErrs = func() []error {
+	var l []error
+	for i := 0; i < 12; i++ {
+		l = append(l, fmt.Errorf("item %d: inner timeout: %w", i, context.DeadlineExceeded))
+	}
+	return l
+}()
+
+// okNilErrCtxMenu: success, success with a nil value, plain error, error wrapping a context
+// error although the batch's own context is alive
+func okNilErrCtxMenu(i, k int) []answer {
+	return []answer{{val: okVal(i)}, {err: itemErr(i, k)}, {val: nil}, {err: ctxWrapErrs[i%12]}}
+}
+func okNilErrMenu(i, k int) []answer {
+	return []answer{{val: okVal(i)}, {err: itemErr(i, k)}, {val: nil}}
+}
+func failFirstMenu(i, k int) []answer {
+	if k == 0 {
+		return []answer{{err: itemErr(i, k)}}
+	}
+	return []answer{{val: okVal(i)}}
+}
 
 // ---------------------------------------------------------------- C06
 
@@ -91,9 +115,25 @@ func genC06(tier string) []Scenario {
 			bd := 1
 			add(batchScn{name: fmt.Sprintf("positional-stopmode n=%d c=%d exec=ok|err", n, c), n: n, c: c, stop: true, shape: shResults, yield: c > 0, execMenu: okOrErrMenu, bound: bd})
 			if n == 2 || c == 0 {
-				add(batchScn{name: fmt.Sprintf("positional-cancelled n=%d c=%d exec=ok|err", n, c), n: n, c: c, shape: shResults, yield: c > 0, execMenu: okOrErrMenu, bound: bd, cancel: cancelSpec{kind: 1, lazy: true}})
+				add(batchScn{name: fmt.Sprintf("positional-cancelled n=%d c=%d exec=ok|err|nil", n, c), n: n, c: c, shape: shResults, yield: c > 0, execMenu: okNilErrMenu, bound: bd, cancel: cancelSpec{kind: 1, lazy: true}})
 			}
 		}
+	}
+	// the same node object run twice: nothing of the first run may show up in the second
+	for _, c := range []int{0, 2} {
+		add(batchScn{name: fmt.Sprintf("positional-two-runs n=2 c=%d exec=ok|err|nil", c), n: 2, c: c, shape: shResults, yield: c > 0, execMenu: okNilErrMenu, bound: 0, runs: 2})
+	}
+	// a context deadline that passes while items are executing (each takes 1 s of virtual time)
+	for _, c := range []int{1, 2} {
+		add(batchScn{name: fmt.Sprintf("positional-deadline-mid-exec n=3 c=%d", c), n: 3, c: c, shape: shResults, execMenu: okMenu, bound: 1, deadline: 1500 * time.Millisecond, execDur: time.Second})
+	}
+	// a large batch (beyond any chunking threshold), cancelled from inside every item in turn
+	for _, c := range []int{0, 1} {
+		n := 130
+		if th {
+			n = 260
+		}
+		add(batchScn{name: fmt.Sprintf("positional-large-cancelled n=%d c=%d", n, c), n: n, c: c, shape: shResults, execMenu: okMenu, bound: 0, cancel: cancelSpec{kind: 1, lazy: true}})
 	}
 	// prep failure: post must not run
 	add(batchScn{name: "positional prep-fails", n: 2, c: 2, shape: shResults, prepErr: true, execMenu: okMenu, bound: 0})
@@ -131,6 +171,17 @@ func genC07(tier string) []Scenario {
 				}
 			}
 		}
+	}
+	// errors that wrap a context error (the batch context is alive) and nil-valued successes are
+	// ordinary per-item outcomes; a cancellation mid-batch never rewrites an item that had finished
+	for _, c := range []int{0, 1, 2} {
+		sc := batchScn{name: fmt.Sprintf("per-item-values n=3 c=%d exec=ok|err|nil|ctx-wrapping-err", c), n: 3, c: c, budget: 1,
+			shape: shResults, yield: c > 0, execMenu: okNilErrCtxMenu, fbMenu: fbOkOrErr, postMenu: postX, bound: 0, chkPerItem: true}
+		out = append(out, sc.scenario())
+		sc2 := batchScn{name: fmt.Sprintf("per-item-cancelled n=3 c=%d exec=ok|nil|err fallback=nil-ok", c), n: 3, c: c, budget: 1, fb: true,
+			shape: shResults, yield: c > 0, execMenu: okNilErrMenu, fbMenu: func(i int) []answer { return []answer{{val: nil}, {err: fbErrTable[i]}} }, postMenu: postX, bound: 0,
+			chkPerItem: true, chkPositional: true, cancel: cancelSpec{kind: 1, lazy: true}}
+		out = append(out, sc2.scenario())
 	}
 	return out
 }
@@ -218,6 +269,12 @@ func genC08(tier string) []Scenario {
 	for _, c := range []int{1, 2} {
 		n := 3*c + 2
 		sc := batchScn{name: fmt.Sprintf("limit-slow n=%d c=%d exec=1s", n, c), n: n, c: c, budget: 1, shape: shResults, execMenu: okMenu, postMenu: postX, bound: 0, chkLimit: true, execDur: time.Second}
+		out = append(out, sc.scenario())
+	}
+	// items that fail their first attempt and wait before the retry still occupy their worker
+	for _, c := range []int{1, 2} {
+		sc := batchScn{name: fmt.Sprintf("limit-retry-wait n=%d c=%d budget=2 wait=1ms", c+2, c), n: c + 2, c: c, budget: 2, wait: time.Millisecond, shape: shResults, yield: true,
+			execMenu: failFirstMenu, postMenu: postX, bound: 1, chkLimit: true}
 		out = append(out, sc.scenario())
 	}
 	// the limit must be usable in stop-on-error mode as well
@@ -322,6 +379,22 @@ func genC09(tier string) []Scenario {
 	for _, c := range []int{0, 2} {
 		sc := batchScn{name: fmt.Sprintf("stop-fallback n=3 c=%d", c), n: 3, c: c, stop: true, budget: 1, fb: true, yield: c > 0, execMenu: okOrErrMenu, fbMenu: fbOkOrErr, bound: 1}
 		add(sc)
+	}
+	// a fallback that returns its input together with the error is still a failure
+	for _, c := range []int{0, 1} {
+		add(batchScn{name: fmt.Sprintf("stop-fallback-echo n=3 c=%d budget=2", c), n: 3, c: c, stop: true, budget: 2, fb: true, fbEcho: true, yield: c > 0, execMenu: okOrErrMenu, fbMenu: fbOkOrErr, bound: 1})
+	}
+	// the mode is re-read on every run: switch the SAME node between continue and stop with the builder method
+	for _, c := range []int{0, 2} {
+		for _, firstStop := range []bool{false, true} {
+			firstStop := firstStop
+			c := c
+			add(batchScn{name: fmt.Sprintf("stop-reconfigured-between-runs n=3 c=%d first-run-stop=%v", c, firstStop), n: 3, c: c, stop: firstStop, budget: 1, yield: c > 0, execMenu: okOrErrMenu, bound: 0, runs: 2,
+				reconf: func(nb *flyt.BatchNodeBuilder, run int) (bool, int) {
+					nb.WithBatchErrorHandling(firstStop) // continueOnError = firstStop  =>  stop = !firstStop
+					return !firstStop, c
+				}})
+		}
 	}
 	// c >= 2 workers
 	for c := 2; c <= 3; c++ {
@@ -436,6 +509,29 @@ func genC11(tier string) []Scenario {
 						}
 					}
 				}
+			}
+		}
+	}
+	// a recovering fallback must not turn never-executed items into successes
+	for _, c := range []int{0, 2} {
+		for _, stop := range []bool{false, true} {
+			add(batchScn{name: fmt.Sprintf("cancel-with-fallback n=3 c=%d stop=%v budget=2", c, stop), n: 3, c: c, stop: stop, budget: 2, fb: true, yield: c > 0, execMenu: okOrErrMenu,
+				fbMenu: func(i int) []answer { return []answer{{val: 2000 + i}} }, bound: 1, cancel: cancelSpec{kind: 1, lazy: true}})
+			add(batchScn{name: fmt.Sprintf("cancel-with-fallback n=3 c=%d stop=%v before-run", c, stop), n: 3, c: c, stop: stop, budget: 2, fb: true, yield: c > 0, execMenu: okOrErrMenu,
+				fbMenu: func(i int) []answer { return []answer{{val: 2000 + i}} }, bound: 1, cancel: cancelSpec{kind: 1, before: true}})
+		}
+	}
+	// a context cancelled WITH A CAUSE: the run's error must still match ctx.Err()
+	for _, c := range []int{0, 2} {
+		for _, stop := range []bool{false, true} {
+			add(batchScn{name: fmt.Sprintf("cancel-with-cause n=2 c=%d stop=%v", c, stop), n: 2, c: c, stop: stop, budget: 1, yield: c > 0, execMenu: okMenu, bound: 1, withCause: true, cancel: cancelSpec{kind: 1, lazy: true}})
+		}
+	}
+	// cancellation arriving asynchronously DURING a retry wait (short and long waits): no further attempt
+	for _, c := range []int{0, 2} {
+		for _, w := range []time.Duration{500 * time.Microsecond, time.Hour} {
+			for j := 0; j < 2; j++ {
+				out = append(out, waitScn{kind: -1, w: w, n: 2, items: 2, c: c, cancelJ: j, d: w / 2, bound: 1}.scenario())
 			}
 		}
 	}
